@@ -282,6 +282,43 @@ pub fn emit_case(rng: &mut Rng, bytes0: &[u8], out: &mut Vec<String>, native_fri
             }
         }
     }
+    // the longest legal encodings: redundant prefixes in front (a repeated segment override or operand-size prefix changes
+    // nothing) up to exactly 15 bytes, the architectural limit, and just below it
+    if rng.chance(1, 25) && bytes.len() < 15 {
+        let d0 = {
+            let mut d = Decoder::with_ip(64, &bytes, code_base, DecoderOptions::NONE);
+            d.decode()
+        };
+        // (the null segments DS/ES/CS/SS are interchangeable in 64-bit mode; FS/GS are kept as they are)
+        let fsgs = |i: &Instruction| matches!(i.segment_prefix(), Register::FS | Register::GS).then(|| i.segment_prefix());
+        let skey = |i: &Instruction| {
+            let ops: Vec<OpKind> = (0..i.op_count()).map(|k| i.op_kind(k)).collect();
+            (i.code(), ops, i.memory_base(), i.memory_index(), i.memory_index_scale(), i.memory_displ_size(), i.memory_displacement64(), fsgs(i))
+        };
+        let key0 = skey(&d0);
+        let target = *rng.pick(&[15usize, 15, 14, 13]);
+        if target > bytes.len() {
+            let pad = match d0.segment_prefix() {
+                Register::FS => 0x64u8,
+                Register::GS => 0x65,
+                _ => *rng.pick(&[0x3eu8, 0x2e, 0x26, 0x36]),
+            };
+            let mut cand = vec![pad; target - bytes.len()];
+            cand.extend_from_slice(&bytes);
+            let mut dd = Decoder::with_ip(64, &cand, code_base, DecoderOptions::NONE);
+            let i1 = dd.decode();
+            // relative branches move with the length: only forms without a code-relative part are padded
+            if !i1.is_invalid()
+                && i1.len() == cand.len()
+                && skey(&i1) == key0
+                && !i1.is_ip_rel_memory_operand()
+                && class_of(i1.mnemonic()) != Class::Branch
+                && class_of(i1.mnemonic()) != Class::CallRet
+            {
+                bytes = cand;
+            }
+        }
+    }
     let mut d = Decoder::with_ip(64, &bytes, code_base, DecoderOptions::NONE);
     let ins = d.decode();
     if ins.is_invalid() || ins.len() != bytes.len() {
@@ -797,11 +834,52 @@ pub fn gen_filtered(
             })
             .cloned()
             .collect();
-        for _ in 0..per {
+        // the few forms with a 16-byte memory operand (the only accesses wider than a machine word) get their share of the
+        // placements — straddling, misaligned, not writable — by count
+        let wide = temps.iter().any(|t| {
+            let mut d = Decoder::with_ip(64, t, CODE, DecoderOptions::NONE);
+            let i = d.decode();
+            has_mem(&i) && mem_size(&i) == 16
+        });
+        for _ in 0..(if wide { 8 * per } else { per }) {
             let tpl = if !reg_temps.is_empty() && rng.chance(2, 5) { rng.pick(&reg_temps).clone() } else { rng.pick(&temps).clone() };
             let _ = emit_case(&mut rng, &tpl, out, true);
         }
     }
+    // a second pass over *addressing shapes*: every combination of base / index / scale / displacement size / segment /
+    // RIP-relative / 32-bit addressing that the probe found gets its own cases, whatever instruction carries it — a form that
+    // is one of dozens per instruction (index without base under 0x67, say) would otherwise appear a handful of times
+    let mut by_shape: BTreeMap<String, Vec<Vec<u8>>> = BTreeMap::new();
+    for temps in t.by_code.values() {
+        for tpl in temps {
+            let mut d = Decoder::with_ip(64, tpl, CODE, DecoderOptions::NONE);
+            let ins = d.decode();
+            if !has_mem(&ins) || !classes.contains(&class_of(ins.mnemonic())) {
+                continue;
+            }
+            by_shape.entry(addr_shape_key(&ins)).or_default().push(tpl.clone());
+        }
+    }
+    let per_shape = if tier == "thorough" { 4 * per.max(1) } else { 2 * per.clamp(1, 3) };
+    for temps in by_shape.values() {
+        for _ in 0..per_shape {
+            let tpl = rng.pick(temps).clone();
+            let _ = emit_case(&mut rng, &tpl, out, true);
+        }
+    }
+}
+
+fn addr_shape_key(ins: &Instruction) -> String {
+    format!(
+        "{:?}{:?}{}{}{:?}{}{}",
+        ins.memory_base() != Register::None,
+        ins.memory_index() != Register::None,
+        ins.memory_index_scale(),
+        ins.memory_displ_size(),
+        ins.segment_prefix(),
+        ins.memory_base() == Register::RIP || ins.memory_base() == Register::EIP,
+        ins.memory_base().is_gpr32() || ins.memory_index().is_gpr32() || ins.memory_base() == Register::EIP
+    )
 }
 
 #[allow(dead_code)]
